@@ -49,18 +49,26 @@ func NewGuardianSets(
 }
 
 func (gs *GuardianSets) GetGuardianSet(ctx context.Context, index int) (*common.GuardianSet, error) {
+	// The index and the list are appended to by the periodic updater: read them under the lock.
+	gs.lock.Lock()
 	if index <= gs.currentGuardianSetIndex {
-		return gs.guardianSetLists[index], nil
+		guardianSet := gs.guardianSetLists[index]
+		gs.lock.Unlock()
+		return guardianSet, nil
 	}
+	fromIndex := gs.currentGuardianSetIndex + 1
+	gs.lock.Unlock()
 
 	// Perhaps the guardian set has been updated and we need to query from the chain
-	guardianSets, err := gs.getGuardianSetsRange(ctx, uint32(gs.currentGuardianSetIndex+1), uint32(index))
+	guardianSets, err := gs.getGuardianSetsRange(ctx, uint32(fromIndex), uint32(index))
 	if err != nil {
 		return nil, err
 	}
 	gs.updateGuardianSets(guardianSets)
 	gs.guardianSetC <- gs.GetCurrentGuardianSet()
 
+	gs.lock.Lock()
+	defer gs.lock.Unlock()
 	if index > gs.currentGuardianSetIndex {
 		return nil, fmt.Errorf("invalid guardian index %v, current guardian set index: %v", index, gs.currentGuardianSetIndex)
 	}
@@ -68,7 +76,15 @@ func (gs *GuardianSets) GetGuardianSet(ctx context.Context, index int) (*common.
 }
 
 func (gs *GuardianSets) GetCurrentGuardianSet() *common.GuardianSet {
+	gs.lock.Lock()
+	defer gs.lock.Unlock()
 	return gs.guardianSetLists[gs.currentGuardianSetIndex]
+}
+
+func (gs *GuardianSets) nextGuardianSetIndex() uint32 {
+	gs.lock.Lock()
+	defer gs.lock.Unlock()
+	return uint32(gs.currentGuardianSetIndex + 1)
 }
 
 func (gs *GuardianSets) UpdateGuardianSet(ctx context.Context) {
@@ -81,7 +97,7 @@ func (gs *GuardianSets) updateGuardianSet(ctx context.Context) {
 	for {
 		select {
 		case <-tick.C:
-			guardianSets, err := GetGuardianSetsFromChain(ctx, gs.ethRpcUrl, gs.ethGovernanceAddress, uint32(gs.currentGuardianSetIndex+1))
+			guardianSets, err := GetGuardianSetsFromChain(ctx, gs.ethRpcUrl, gs.ethGovernanceAddress, gs.nextGuardianSetIndex())
 			if err != nil {
 				gs.logger.Error("failed to get guardian sets", zap.Error(err))
 				continue
